@@ -245,6 +245,7 @@ type resp struct {
 	Addr   string  `json:"addr,omitempty"`
 	Ack    string  `json:"ack,omitempty"`
 	Seen   int     `json:"seen,omitempty"`
+	Total  int     `json:"total,omitempty"`
 	Fired  bool    `json:"fired,omitempty"`
 	Events []event `json:"events,omitempty"`
 	Snap   *dbSnap `json:"snap,omitempty"`
@@ -329,7 +330,7 @@ func childMain() {
 			out.Encode(r)
 		case "seen":
 			rec.mu.Lock()
-			r := resp{OK: true, Seen: rec.seen, Fired: rec.fired}
+			r := resp{OK: true, Seen: rec.seen, Fired: rec.fired, Total: rec.total}
 			rec.mu.Unlock()
 			out.Encode(r)
 		case "trace_start":
